@@ -126,6 +126,8 @@ func snapshot(root string) []string {
 			} else if strings.HasPrefix(t, root) {
 				t = strings.TrimPrefix(t, root)
 			}
+			// a target built from the unpack directory's own path carries the sandbox root a second time: make it symbolic
+			t = strings.ReplaceAll(t, strings.TrimPrefix(root, "/"), "@R@")
 			items = append(items, hx.Hex(rel)+"=l"+hx.Hex(t))
 		case d.IsDir():
 			items = append(items, hx.Hex(rel)+"=d")
@@ -165,6 +167,8 @@ func run(es []ent) string {
 		var buf bytes.Buffer
 		tw := tar.NewWriter(&buf)
 		for _, e := range es {
+			// @D@ in a link text stands for the actual unpack directory, @d@ for the same without its leading slash
+			e.link = strings.ReplaceAll(strings.ReplaceAll(e.link, "@D@", target), "@d@", strings.TrimPrefix(target, "/"))
 			h, body := header(e)
 			if err := tw.WriteHeader(h); err != nil {
 				return "tarerr"
@@ -255,6 +259,11 @@ func simplePath(r *rand.Rand, maxLen int) string {
 	return strings.Join(p, "/")
 }
 
+// absolute link targets built from the ACTUAL unpack directory (@D@), which share its text as a prefix, and names that
+// merely share a string prefix with it; the destinations outside (target-evil, secret, sb) exist in the sandbox
+var dirTargets = []string{"@D@/b", "@D@/../target-evil", "@D@/../secret", "@D@/./../target-evil", "@D@/a/../../target-evil", "@D@/..", "@D@/../..",
+	"@D@-evil", "@D@-evil/x", "@D@x", "@D@", "@D@/", "@D@//../target-evil", "@d@/b", "@d@/../target-evil", "/@d@/../secret", "@D@/b/../../../sb/secret"}
+
 func randCase(r *rand.Rand) []ent {
 	var es []ent
 	mode := r.Intn(100)
@@ -288,8 +297,10 @@ func randCase(r *rand.Rand) []ent {
 				e.link = mkPath(r, 3, true)
 			case y < 90:
 				e.link = "../" + simplePath(r, 2)
-			case y < 97:
+			case y < 94:
 				e.link = plain[r.Intn(3)] + "/.."
+			case y < 97:
+				e.link = dirTargets[r.Intn(len(dirTargets))]
 			default:
 				e.link = ""
 			}
@@ -305,7 +316,7 @@ func randCase(r *rand.Rand) []ent {
 	}
 	// symlink-then-write-through
 	if mode >= 80 && len(es) >= 2 {
-		links := []string{"/", ".", "b", "/b/c", "../target-evil", "b/..", "//..", "//../target-evil", "/./..", "//", "./..", "///..", "b//..", "/b/../.."}
+		links := []string{"@D@/../target-evil", "@D@/..", "@D@/b", "/", ".", "b", "/b/c", "../target-evil", "b/..", "//..", "//../target-evil", "/./..", "//", "./..", "///..", "b//..", "/b/../.."}
 		nm := plain[r.Intn(3)]
 		if r.Intn(3) == 0 {
 			nm = plain[r.Intn(3)] + "/" + nm
